@@ -88,7 +88,7 @@ ENS = ["A", "B2", "ens_c", "D|x"]   # 'D|x': a name whose text after '|' does no
 def gen_obs_spec(rng, nens=None, nmin=5, nmax=64, allow_irregular=True, allow_cov=True):
     """An observable = sum over 1..3 single-ensemble primaries (each 1..3 replicas) [+ covariance input]."""
     nens = nens or rng.choice([1, 1, 2, 3])
-    ens = rng.sample(["A", "B2", "ens_c", "Dd"], nens)
+    ens = rng.sample(["A", "A2", "B2", "ens_c", "Dd"], nens)
     parts = []
     for e in ens:
         R = rng.choice([1, 1, 2, 3])
